@@ -13,6 +13,7 @@ import json, os, shutil, subprocess, sys, time
 from concurrent.futures import ThreadPoolExecutor
 
 wt, pid, sid = sys.argv[1], sys.argv[2], sys.argv[3]
+needs = sys.argv[sys.argv.index("--needs") + 1] if "--needs" in sys.argv else ""
 checks = None
 if "--checks" in sys.argv:
     checks = sys.argv[sys.argv.index("--checks") + 1].split(",")
@@ -70,7 +71,8 @@ shutil.copy(os.path.join(wt, demo), f"{out}/{demo}")
 if os.path.exists(os.path.join(wt, "SEED_REPORT.md")):
     shutil.copy(os.path.join(wt, "SEED_REPORT.md"), f"{out}/SEED_REPORT.md")
 meta = {
-    "seed_id": sid, "property": pid,
+    "seed_id": sid, "property": pid, "needs_to_manifest": needs,
+    "origin": "written by a fresh sub-agent that saw only the property text and its own scratch worktree (nothing from /verif)",
     "tests_with_change": tests_line,
     "demo_with_change_exit": d_with.returncode, "demo_without_change_exit": d_without.returncode,
     "confirmed": ("61 passed" in tests_line) and d_with.returncode != 0 and d_without.returncode == 0,
